@@ -187,6 +187,8 @@ func (s *scen) check(key, where string) {
 				} else {
 					vrt.Assert(where+":read-equals-model(flags,value)", vrt.All(p.Ver > 0, rest))
 				}
+			} else if s.knownID != "" {
+				vrt.AssertKnown(where+":read-equals-model(version,flags,value)", s.knownID, s.knownCond, vrt.All(p.Ver == m.ver, rest))
 			} else {
 				vrt.AssertKnown(where+":read-equals-model(version,flags,value)", "F1", vrt.All(m.f1, rest), vrt.All(p.Ver == m.ver, rest))
 			}
@@ -198,6 +200,8 @@ func (s *scen) check(key, where string) {
 		if p != nil {
 			if s.noVersion[key] {
 				vrt.Assert(where+":deleted-key-not-live", p.Ver < 0)
+			} else if s.knownID != "" {
+				vrt.AssertKnown(where+":deleted-key-reads-as-tombstone", s.knownID, s.knownCond, vrt.All(p.Ver < 0, vrt.Implies(m.ver < 0, p.Ver == m.ver)))
 			} else {
 				vrt.AssertKnown(where+":deleted-key-reads-as-tombstone", "F1", m.f1, vrt.All(p.Ver < 0, vrt.Implies(m.ver < 0, p.Ver == m.ver)))
 			}
